@@ -537,7 +537,7 @@ func (e *Endpoint) Close() error {
 	n.mu.Lock()
 	if e.closed {
 		n.mu.Unlock()
-		return nil
+		return net.ErrClosed // like a TCP connection: "use of closed network connection"
 	}
 	e.closed = true
 	close(e.closeC)
